@@ -58,6 +58,7 @@ import (
 	"sort"
 	"strconv"
 	"strings"
+	"time"
 
 	"github.com/dcaiafa/lox/internal/ast"
 	"github.com/dcaiafa/lox/internal/base/errlogger"
@@ -926,20 +927,22 @@ func (g *anGen) class(only []rune) *anClass {
 	return c
 }
 
-// term generates one lexer term; nMac: macros 0..nMac-1 may be mentioned.
+// term generates one lexer term; nMac: macros 0..nMac-1 may be mentioned. Repetition is kept to
+// literals and small classes so that the DFAs the front end builds for accepted specifications stay
+// small (this family is about the analysis, not about the automata).
 func (g *anGen) term(depth, nMac int) *anTerm {
 	t := &anTerm{}
-	if g.r.Chance(2, 5) {
-		t.Card = 1 + g.r.Intn(5)
-	}
+	loop := false
 	k := g.r.Intn(10)
 	switch {
 	case k < 3:
 		t.Kind = 'L'
 		t.Lit = g.litPieces(0, 1)
+		loop = true
 	case k < 5:
 		t.Kind = 'C'
 		t.C1 = g.class(nil)
+		loop = !t.C1.Neg && len(t.C1.Items) == 1 && t.C1.Items[0][1]-t.C1.Items[0][0] < 100
 	case k == 5:
 		t.Kind = 'S'
 		t.C1 = g.class(nil)
@@ -949,12 +952,20 @@ func (g *anGen) term(depth, nMac int) *anTerm {
 	case k < 9 && nMac > 0:
 		t.Kind = 'R'
 		t.Name = g.macros[g.r.Intn(nMac)].Name
-	case depth < 2:
+	case depth < 1:
 		t.Kind = 'G'
 		t.Alts = g.expr(depth+1, nMac, nil)
 	default:
 		t.Kind = 'L'
 		t.Lit = g.litPieces(0, 1)
+		loop = true
+	}
+	if g.r.Chance(2, 5) {
+		if loop {
+			t.Card = 1 + g.r.Intn(5)
+		} else {
+			t.Card = 1
+		}
 	}
 	return t
 }
@@ -979,6 +990,9 @@ func (g *anGen) expr(depth, nMac int, prefix []rune) [][]*anTerm {
 		n := g.r.Intn(3)
 		if prefix == nil {
 			n++
+		}
+		if depth > 0 && n > 2 {
+			n = 2
 		}
 		for j := 0; j < n; j++ {
 			alt = append(alt, g.term(depth, nMac))
@@ -1679,6 +1693,9 @@ var anFaults = []anFault{
 				orig = o
 			}
 		}
+		if orig == nil {
+			return nil, false
+		}
 		t.Expr = [][]*anTerm{{{Kind: 'L', Lit: a.Lit}}}
 		if len(g.modes) > 0 && g.r.Bool() {
 			m := Pick(g.r, g.modes)
@@ -2013,7 +2030,15 @@ func anEmit(c *Ctx, g *anGen, fault string, blameDecls []anDecl, layout *Rng) {
 		blame = append(blame, [2]int{lo, hi})
 	}
 	caseLine := fmt.Sprintf("dec.analyze %s | fault=%s blame=%s files=%s", g.spec.encode(), fault, anBlameText(blame), anFilesText(texts))
+	t0 := time.Now()
 	out, panicMsg := anRunFront(texts)
+	if ms := time.Since(t0).Milliseconds(); ms > 200 {
+		c.Count("slow-front-end(>200ms)")
+		if int(ms) > c.Counters["slowest-ms"] {
+			c.Counters["slowest-ms"] = int(ms)
+			c.Extra["slowest"] = anFilesText(texts)
+		}
+	}
 	ds := anParseOutput(out)
 	wf := 0
 	if fault == "none" {
@@ -2024,7 +2049,7 @@ func anEmit(c *Ctx, g *anGen, fault string, blameDecls []anDecl, layout *Rng) {
 		impl += " PANIC"
 	}
 	c.EmitO(caseLine, impl, anOracle(fault, blame, ds, panicMsg))
-	c.Count("fault:" + fault)
+	c.Count("fault:" + strings.SplitN(fault, ":", 2)[0])
 	if len(ds) == 0 {
 		c.Count("accepted")
 	} else {
@@ -2146,6 +2171,25 @@ func init() {
 					}
 				}
 				anEmit(c, g, f.name, bl, NewRng(seed^0x5555^uint64(fi+1)))
+			}
+			// several faults at once: which pass speaks first, and in which order (correspondence
+			// with the model; the oracle only asks for a rejection)
+			for k := 0; k < 4; k++ {
+				g := anGenSpec(NewRng(seed))
+				g.r = NewRng(seed ^ uint64(k+77)*0x9E3779B9)
+				var names []string
+				for j, n := 0, 2+g.r.Intn(2); j < n; j++ {
+					f := Pick(g.r, anFaults)
+					if f.name == "no-start" { // together with second-start it is no fault at all
+						continue
+					}
+					if _, ok := f.apply(g); ok {
+						names = append(names, f.name)
+					}
+				}
+				if len(names) > 0 {
+					anEmit(c, g, "multi:"+strings.Join(names, "+"), nil, NewRng(seed^0x7777^uint64(k)))
+				}
 			}
 			if i%5 == 0 {
 				anOverlap(c, c.Rng)
